@@ -39,8 +39,8 @@ def replay(path, prop):
                 tr = {'id': 1, 'ends': st.ends, 'extra': 0, 'cansay': False, 'ev': ev}
             else:
                 upto = m['upto']
-                ev, detail = S.run_schedule(SP.STREAMING[m['rules']], st.data[:upto], st.spec, refs, st.matcher(), m['kind'], m['parts'],
-                                            m['close_with_last'], m['idle'])
+                ev, detail, _mech = S.run_schedule(SP.STREAMING[m['rules']], st.data[:upto], st.spec, refs, st.matcher(), m['kind'], m['parts'],
+                                                   m['close_with_last'], m['idle'])
                 comp = [e for e in st.ends if e <= upto]
                 tr = {'id': 1, 'ends': comp, 'extra': upto - (comp[-1] if comp else 0), 'cansay': True, 'ev': ev}
             print('re-executed events (flat triples):', ev, detail)
